@@ -46,6 +46,7 @@ func c12Exec(t *testing.T, root string, sc c12Scenario, only int, prefix []int) 
 			sched.Point("fs." + e.Op)
 			return nil
 		}
+		leaf.After = func(e FsEvent) { sched.Point("fs." + e.Op + ".done") }
 		h := buildHandler(SrvOpts{Root: root, AllowWrite: sc.allow, LeafWrap: func(afero.Fs) afero.Fs { return leaf }})
 		ln := newListener()
 		ln.hook = func(op string) {
